@@ -272,7 +272,8 @@ schedule and mode.  What makes the result independent of it is that `Sim.init` r
 before anything reads them (`Gen.initSeedsGlobalFirst`, regenerated from `Sim.init`).  This section models a run that
 READS the hosting process's state; `Lemmas/MultiRun.lean` proves that it refines the pure model above. -/
 
-/-- state of the process-global generators: right after `ss.set_seed(s)`, or anything else (`h` names it) -/
+/-- state of the PROCESS as far as a run can see it — the process-global generators and every other container that lives
+    as long as the process: right after `Sim.init` reset it from seed `s`, or anything else (`h` names it) -/
 inductive GState where
   | seeded (s : Int)
   | host (h : Nat)
@@ -290,9 +291,15 @@ structure GEnv (κ ρ : Type) where
     global generators from the seed -/
 def GEnv.pure {κ ρ : Type} (env : GEnv κ ρ) : κ → Int → ρ := fun c s => env.simG c s (.seeded s)
 
-/-- the global generators after `Sim.init` of a sim with `pars.rand_seed = seed`: reset iff the first statement of
-    `Sim.init` is the unconditional `ss.set_seed(self.pars.rand_seed)` (else: whatever the process held) -/
-def initGlobal (seed : Int) (g : GState) : GState := if Gen.initSeedsGlobalFirst then .seeded seed else g
+/-- `Sim.init` leaves the process in a state determined by the sim's seed alone: the generators are reset first
+    (`Gen.initSeedsGlobalFirst`), and there is no other process-level state a run could read — no class attribute of the
+    package is bound to a mutable container (one object shared by all instances of a process, which `init` cannot reset)
+    and nothing is memoised (`Gen.classLevelMutables`, `Gen.processMemos`, regenerated from the package sources). -/
+def initResetsProcessState : Bool :=
+  Gen.initSeedsGlobalFirst && Gen.classLevelMutables.isEmpty && Gen.processMemos.isEmpty
+
+/-- the process state after `Sim.init` of a sim with `pars.rand_seed = seed` (else: whatever the process held) -/
+def initGlobal (seed : Int) (g : GState) : GState := if initResetsProcessState then .seeded seed else g
 
 section RunG
 variable {κ ρ : Type} (env : GEnv κ ρ)
